@@ -35,14 +35,45 @@ def explicit(tier, seed):
             yield {"label": "c01-summarised-" + kind, "prog": {"body": [node] + tail}, "prog_seed": 26000 + i,
                    "pattern": {"p": "crash_enum", "max_points": 10} if tier != "quick" else {"p": "plain"}}
             i += 1
+def merge_window_cases(tier, seed):
+    """Re-invocation of a block whose branches are at different distances from the replay boundary: some are still replaying long
+    runs of completed operations while others already record new work, so lookups of the history race with the checkpoint thread
+    merging responses into it; the merging thread is descheduled right after each statement that signals or empties something
+    (after-sync perturbation)."""
+    import random
+
+    rng = random.Random(seed + 11)
+    for j in range(10 if tier == "quick" else 100):
+        nb = rng.choice([2, 3, 4])
+        brs = []
+        for b in range(nb):
+            done = rng.choice([1, 2, 12, 20, 30]) if b else 25
+            new = rng.choice([1, 4, 8])
+            brs.append({"body": [{"k": "step", "val": "d%d_%d" % (b, k)} for k in range(done)] + [{"k": "wait", "s": 1}] +
+                                [{"k": "step", "val": "n%d_%d" % (b, k)} for k in range(new)]})
+        node = {"k": rng.choice(["par", "par", "map"]), "cfg": {"preset": "all_completed"}}
+        if node["k"] == "par":
+            node["branches"] = brs
+        else:
+            node.update(items=list(range(nb)), per_item=brs, body=[])
+        yield {"label": "c01-replay-while-merging", "prog": {"body": [{"k": "step", "val": 0}, node, {"k": "step", "val": "end"}]}, "prog_seed": 26500 + j,
+               "pattern": {"p": "plain"}, "pages": rng.choice([{}, {}, {"resp_page": 2}]),
+               "opts": {"perturb": {"p": 0.0, "seed": seed * 71 + j, "files": ["state.py"], "after_sync": {"p": 0.9, "sleep": 0.003}}}}
+
+
+def explicit_all(tier, seed):
+    yield from explicit(tier, seed)
+    yield from merge_window_cases(tier, seed)
+
+
 SPEC = Spec(
     PROP,
     level="fault_enumeration",
     rule="random programs (all nine operation kinds, nesting<=3) x {uninterrupted with random pagination/latency, every single "
-    "crash point of a small-program corpus, random multi-crash, asynchronous SIGKILL, yield injection}; at every user-function entry the backend table must not hold that operation terminal (context bodies excepted only under ReplayChildren); every operation terminal at invocation start must deliver the recorded kind of outcome. Explicit slice: child contexts / map / parallel whose result exceeds the checkpoint size limit (recorded as a summary, body traversed again on replay) with steps, retried steps, waits, conditions, callbacks and nested contexts inside, at two nesting depths. Non-trivial = an operation that was terminal at an invocation's start was delivered again (replayed) in that invocation. "
+    "crash point of a small-program corpus, random multi-crash, asynchronous SIGKILL, yield injection}; at every user-function entry the backend table must not hold that operation terminal (context bodies excepted only under ReplayChildren); every operation terminal at invocation start must deliver the recorded kind of outcome. Explicit slice: child contexts / map / parallel whose result exceeds the checkpoint size limit (recorded as a summary, body traversed again on replay) with steps, retried steps, waits, conditions, callbacks and nested contexts inside, at two nesting depths; blocks whose branches replay 1-30 completed operations each while sibling branches already record new work, under after-sync perturbation of the checkpoint thread. Non-trivial = an operation that was terminal at an invocation's start was delivered again (replayed) in that invocation. "
     "A class = (program shape hash, interruption pattern, event kind at which the crash landed).",
     deciding=replayed_delivery,
-    explicit=explicit,
+    explicit=explicit_all,
 )
 cases = SPEC.cases
 run_case = SPEC.run_case
